@@ -28,7 +28,7 @@ func streamC11(c *Ctx) {
 		"non-trivial = distinct documents containing a time or an integer extreme inside an array or object"
 	dr := StartDriver(c.DriverBin)
 	defer dr.Close()
-	n := c.N(150, 3000)
+	n := c.N(600, 6000)
 	depth := 3
 	if !c.Quick() {
 		depth = 5
@@ -569,7 +569,7 @@ func streamC20(c *Ctx) {
 		"a panic or a call that does not return within the deadline is a violation. non-trivial = distinct (operation, state kind) executed"
 	dr := StartDriver(c.DriverBin)
 	defer dr.Close()
-	nHist := c.N(40, 1000)
+	nHist := c.N(100, 1500)
 	dm := Domain{IntsWithin2p53: true, NoNegTimes: true}
 	for _, be := range []string{"bbolt", "badger-mem", "badger-disk"} {
 		im := NewImpl(be, c.Scratch)
@@ -618,7 +618,7 @@ func streamC20(c *Ctx) {
 	}
 	// direct API calls
 	g := NewGen(c.Rng, Domain{})
-	for i := 0; i < c.N(3000, 60000); i++ {
+	for i := 0; i < c.N(9000, 120000); i++ {
 		c.Evals++
 		func() {
 			defer func() {
